@@ -572,6 +572,92 @@ case_img(long idx, void *ctx)
     mc_count("image_cases", 1);
 }
 
+/* 8-bit images written through GR next to an image that is not 8-bit (so that reference numbers of raster groups and of
+   image data drift apart), optionally followed by a second GR session that changes the metadata of one 8-bit image:
+   DFR8 sees exactly the 8-bit images, each once, with the pixels written */
+static void
+case_mixedimg(long idx, void *ctx)
+{
+    (void)ctx;
+    int lead = (int)(idx % 2), step = (int)(idx / 2 % 4);
+    int cfg[3] = {8, lead, step};
+    mc_set_config(cfg, 3, "family=mixedimg");
+    static const char *SN[] = {"", "; second session: attribute on the first 8-bit image", "; second session: attribute on the second 8-bit image",
+                               "; second session: palette for the first 8-bit image"};
+    setcase("GR writes %stwo 8-bit images%s, read through DFR8", lead ? "a 16-bit image and then " : "", SN[step]);
+    vfs_remove_file(PATH);
+    uint8  p1[12], p2[6], pal[768], buf[16];
+    uint16 wide[4] = {1000, 2000, 3000, 4000};
+    for (int i = 0; i < 12; i++)
+        p1[i] = (uint8)(10 + i * 3);
+    for (int i = 0; i < 6; i++)
+        p2[i] = (uint8)(200 - i * 7);
+    for (int i = 0; i < 768; i++)
+        pal[i] = (uint8)(i * 5 + 1);
+    int32 f = Hopen(PATH, DFACC_CREATE, 0), G = GRstart(f), st[2] = {0, 0}, rc = 0;
+    int32 dw[2] = {2, 2}, d1[2] = {4, 3}, d2[2] = {3, 2};
+    if (lead) {
+        int32 ri = GRcreate(G, "wide", 1, DFNT_UINT16, 0, dw);
+        if (GRwriteimage(ri, st, NULL, dw, wide) == FAIL)
+            rc = FAIL;
+        GRendaccess(ri);
+    }
+    int32 ri = GRcreate(G, "one", 1, DFNT_UINT8, 0, d1);
+    if (GRwriteimage(ri, st, NULL, d1, p1) == FAIL)
+        rc = FAIL;
+    GRendaccess(ri);
+    ri = GRcreate(G, "two", 1, DFNT_UINT8, 0, d2);
+    if (GRwriteimage(ri, st, NULL, d2, p2) == FAIL)
+        rc = FAIL;
+    GRendaccess(ri);
+    if (GRend(G) == FAIL || Hclose(f) == FAIL || rc == FAIL) {
+        mc_violation("mixedimg:write-failed", "%s: GR refused legal images", g_case);
+        return;
+    }
+    if (step) {
+        f  = Hopen(PATH, DFACC_RDWR, 0);
+        G  = GRstart(f);
+        ri = GRselect(G, GRnametoindex(G, step == 2 ? "two" : "one"));
+        int32 av = 7;
+        if (step == 3)
+            rc = GRwritelut(GRgetlutid(ri, 0), 3, DFNT_UINT8, 0, 256, pal);
+        else
+            rc = GRsetattr(ri, "note", DFNT_INT32, 1, &av);
+        GRendaccess(ri);
+        if (GRend(G) == FAIL || Hclose(f) == FAIL || rc == FAIL) {
+            mc_violation("mixedimg:second-session-failed", "%s: the second GR session failed", g_case);
+            return;
+        }
+    }
+    /* GR's own view */
+    gr_check_image(lead + 0, p1, 4, 3, 1, step == 3 ? pal : NULL, "writer's own view");
+    gr_check_image(lead + 1, p2, 3, 2, 1, NULL, "writer's own view");
+    /* DFR8 */
+    int n = DFR8nimages(PATH);
+    if (n != 2)
+        DISAGREE("mixedimg:dfr8-count", "DFR8nimages reports %d images, the file holds 2 8-bit images", n);
+    DFR8restart();
+    const uint8 *want[2] = {p1, p2};
+    const int    wx[2] = {4, 3}, wy[2] = {3, 2};
+    for (int k = 0; k < 2; k++) {
+        int32 gx = 0, gy = 0;
+        int   ispal = -1;
+        memset(buf, 0xEE, sizeof buf);
+        if (DFR8getdims(PATH, &gx, &gy, &ispal) == FAIL) {
+            DISAGREE("mixedimg:dfr8-sequence", "DFR8getdims fails for 8-bit image #%d of 2", k + 1);
+            break;
+        }
+        if (gx != wx[k] || gy != wy[k]) {
+            DISAGREE("mixedimg:dfr8-shape", "DFR8getdims reports %dx%d for 8-bit image #%d, written %dx%d", (int)gx, (int)gy, k + 1, wx[k], wy[k]);
+            break;
+        }
+        if (DFR8getimage(PATH, buf, wx[k], wy[k], NULL) == FAIL || memcmp(buf, want[k], (size_t)(wx[k] * wy[k])))
+            DISAGREE("mixedimg:dfr8-pixels", "DFR8getimage of 8-bit image #%d differs from the pixels written", k + 1);
+    }
+    mc_outcome(mc_hash_i(mc_hash_i(MC_H0, 800 + lead), step));
+    mc_count("mixedimg_cases", 1);
+}
+
 /* several palettes in one file: written through GR (one per image) or through DFP, read sequentially through DFP and through GR */
 static void
 case_palettes(long idx, void *ctx)
@@ -1213,9 +1299,9 @@ typedef struct {
     long n;
 } fam_t;
 static fam_t FAM[] = {
-    {"sds", case_sds, 2 * NSHAPE * NNT * 8 * 2}, {"img", case_img, 4 * 4 * 3 * 2}, {"ann", case_ann, 2 * 4 * 3}, {"nc", case_nc, 2 * 5 * 2 * 2}, {"vview", case_vview, 12}, {"legacy", case_legacy, 0}, {"recvar", case_recvar, NNT * 4 * 2}, {"palettes", case_palettes, 8},
+    {"sds", case_sds, 2 * NSHAPE * NNT * 8 * 2}, {"img", case_img, 4 * 4 * 3 * 2}, {"ann", case_ann, 2 * 4 * 3}, {"nc", case_nc, 2 * 5 * 2 * 2}, {"vview", case_vview, 12}, {"legacy", case_legacy, 0}, {"recvar", case_recvar, NNT * 4 * 2}, {"palettes", case_palettes, 8}, {"mixedimg", case_mixedimg, 8},
 };
-#define NFAM 8
+#define NFAM 9
 
 int
 C15_main(const char *tier, const char *replay)
@@ -1244,6 +1330,7 @@ C15_main(const char *tier, const char *replay)
             case 5: idx = cfg[1]; break;
             case 6: idx = cfg[1] + (long)NNT * (cfg[2] + 4 * cfg[3]); break;
             case 7: idx = cfg[1] + 2 * (cfg[2] - 1); break;
+            case 8: idx = cfg[1] + 2 * cfg[2]; break;
         }
         FAM[cfg[0]].fn(idx, NULL);
         printf("replay C15: %s\n", g_case);
